@@ -1,8 +1,241 @@
-(* C19 - docstring checking (work in progress: translation obligation only; the property theorems follow) *)
-From Coq Require Import List ZArith Bool String.
-From PV Require Import Base.Exn Model.DocstringTyping Model.Docstring Spec.DocstringSpec Gen.Docstring.
-Import ListNotations.
+(* C19 - docstring checking accepts exactly the docstrings consistent with the signature.
 
+   `Gen.Docstring.docstring_prog` is regenerated on every run from pedantic/type_checking_logic/check_docstring.py
+   (_check_docstring, _assert_docstring_is_complete, _parse_documented_type) and pedantic/decorators/fn_deco_pedantic.py
+   (the trigger condition in pedantic.decorator); Model/Docstring.v interprets it (check, decorate, decorate_all).
+   The specification is Spec/DocstringSpec.v (consistent, one_edit), written from the property text.
+   Input of model and specification: the annotations (inspect.getfullargspec(f).annotations, any number of parameters of
+   any kind, in any order) and the *parsed* docstring as docstring_parser returns it.
+
+   Two open findings (known_findings.json) are mirrored here by `_refuted` theorems; the property is proved as
+   `_partial` under the narrowest guard excluding them, the full statements stay visible in comments.            *)
+From Coq Require Import List ZArith Bool String.
+From PV Require Import Base.Exn Model.DocstringTyping Model.Docstring Spec.DocstringSpec Gen.Docstring
+  Proofs.DocstringTy Proofs.DocstringEvalLemmas Proofs.DocstringRef Proofs.DocstringMain.
+Import ListNotations.
+Open Scope string_scope.
+Open Scope list_scope.
+
+(* ---- translation obligations ------------------------------------------------------------------------------- *)
+(* the regenerated program is the one the lemmas are about *)
 Theorem C19_prog_is_canonical : docstring_prog = canonical.
 Proof. reflexivity. Qed.
 Print Assumptions C19_prog_is_canonical.
+
+(* _check_docstring is called in the body of pedantic.decorator (decoration time, before any wrapper exists);
+   pedantic_require_docstring / pedantic_class_require_docstring are the shortcuts they claim to be; annotations /
+   docstring / raw_doc are the plain accessors; _update_context (hand-modelled as Model.Docstring.upd and validated
+   by the correspondence stream `typing`) has the pinned structure.                                             *)
+Theorem C19_structure :
+  check_runs_at_decoration_time = true /\ require_shortcut_ok = true /\ class_shortcut_ok = true /\
+  accessors_ok = true /\ eval_uses_module_globals_and_context = true /\ update_context_sha = "074fb7020b6c119b".
+Proof. repeat split; reflexivity. Qed.
+Print Assumptions C19_structure.
+
+Definition fc (req : bool) (ann : annotations) (doc : docT) : fcase := mkfc req true ann doc.
+
+(* ---- when the check runs at all ------------------------------------------------------------------------------- *)
+Theorem C19_trigger : forall c,
+  decorate docstring_prog c =
+  if f_parser c && applies (f_require c) (f_doc c) then check docstring_prog c else Ok tt.
+Proof.
+  intros c. rewrite C19_prog_is_canonical, decorate_canonical, check_canonical. reflexivity.
+Qed.
+Print Assumptions C19_trigger.
+
+(* a required docstring that is missing (or empty) *)
+Theorem C19_required_missing_doc : forall ann doc,
+  d_raw doc <> RawText -> decorate docstring_prog (fc true ann doc) = Raise PDocstringC.
+Proof.
+  intros ann doc H. rewrite C19_trigger. cbn [fc mkfc f_parser f_require f_doc applies andb orb].
+  rewrite C19_prog_is_canonical, check_canonical. apply complete_fail_check.
+  intros C. apply complete_ref_Ok in C as [C _]. contradiction.
+Qed.
+Print Assumptions C19_required_missing_doc.
+
+(* ---- accepted <-> consistent ------------------------------------------------------------------------------------ *)
+(* soundness of acceptance, at full strength: whatever the check accepts is consistent *)
+Theorem C19_accepted_is_consistent : forall scope req ann doc,
+  sig_ok ann = true -> scope_ok scope ann = true ->
+  check docstring_prog (fc req ann doc) = Ok tt -> consistent scope ann doc.
+Proof.
+  intros scope req ann doc Hs Hsc H. rewrite C19_prog_is_canonical, check_canonical in H.
+  eapply accepted_consistent; eauto.
+Qed.
+Print Assumptions C19_accepted_is_consistent.
+
+(* Full statement (false on the current code, see C19_accepts_iff_consistent_refuted):
+     forall scope req ann doc, sig_ok ann = true -> scope_ok scope ann = true -> doc_no_typing_dot doc = true ->
+       (check docstring_prog (fc req ann doc) = Ok tt <-> consistent scope ann doc).
+   Proved under the guard `ctx_covers [] ann`: every class an annotation mentions has been collected by
+   _update_context when the entry of that annotation is parsed (open finding C19-pipe-union-context:
+   classes under `X | Y` are not collected).                                                                       *)
+Theorem C19_accepts_iff_consistent_partial : forall scope req ann doc,
+  sig_ok ann = true -> scope_ok scope ann = true -> doc_no_typing_dot doc = true ->
+  ctx_covers [] ann = true ->
+  (check docstring_prog (fc req ann doc) = Ok tt <-> consistent scope ann doc).
+Proof.
+  intros scope req ann doc Hs Hsc Hdot Hcov. rewrite C19_prog_is_canonical, check_canonical. split.
+  - eapply accepted_consistent; eauto.
+  - eapply consistent_accepted; eauto.
+Qed.
+Print Assumptions C19_accepts_iff_consistent_partial.
+
+(* the guard holds for every signature whose annotations contain no `X | Y` union *)
+Theorem C19_accepts_iff_consistent_no_pipe : forall scope req ann doc,
+  sig_ok ann = true -> scope_ok scope ann = true -> doc_no_typing_dot doc = true ->
+  forallb (fun kv => no_pipe (snd kv)) ann = true ->
+  (check docstring_prog (fc req ann doc) = Ok tt <-> consistent scope ann doc).
+Proof.
+  intros scope req ann doc Hs Hsc Hdot Hp. apply C19_accepts_iff_consistent_partial; try assumption.
+  apply no_pipe_ctx_covers. intros k t Hin. rewrite forallb_forall in Hp. split.
+  - eapply (sf_ann_ok _ (sig_ok_facts _ Hs)); eauto.
+  - apply (Hp (k, t) Hin).
+Qed.
+Print Assumptions C19_accepts_iff_consistent_no_pipe.
+
+Definition dt (text : string) (e : texpr) : dtype := {| dt_text := text; dt_expr := e |}.
+
+(* def f(a: Foo | None) with `a (Foo | None): ...`: consistent, and rejected *)
+Theorem C19_accepts_iff_consistent_refuted : exists scope req ann doc,
+  sig_ok ann = true /\ scope_ok scope ann = true /\ doc_no_typing_dot doc = true /\
+  consistent scope ann doc /\ check docstring_prog (fc req ann doc) = Raise PDocstringC.
+Proof.
+  exists ["Foo"; "NoneType"], true, [("a", TPipe [TCls "Foo"; TCls "NoneType"])],
+         (mkdoc RawText [("a", Some (dt "Foo | None" (EOr (EName "Foo") ENone)))] None).
+  split; [reflexivity|]. split; [reflexivity|]. split; [reflexivity|]. split; [|reflexivity].
+  apply consistentb_iff; [apply nodupb_NoDup; reflexivity|reflexivity].
+Qed.
+Print Assumptions C19_accepts_iff_consistent_refuted.
+
+(* ---- rejection: always PedanticDocstringException ------------------------------------------------------------------- *)
+(* whenever every documented parameter has a type and every documented type can be evaluated (or names
+   something undefined), the check raises nothing but PedanticDocstringException: no IndexError, no TypeError *)
+Theorem C19_only_docstring_exception : forall scope req ann doc,
+  sig_ok ann = true -> scope_ok scope ann = true -> doc_typed doc = true -> doc_evaluable scope doc = true ->
+  check docstring_prog (fc req ann doc) = Ok tt \/ check docstring_prog (fc req ann doc) = Raise PDocstringC.
+Proof.
+  intros. rewrite C19_prog_is_canonical, check_canonical. eapply only_docstring_exception; eauto.
+Qed.
+Print Assumptions C19_only_docstring_exception.
+
+Theorem C19_rejects_inconsistent : forall scope req ann doc,
+  sig_ok ann = true -> scope_ok scope ann = true -> doc_typed doc = true -> doc_evaluable scope doc = true ->
+  ~ consistent scope ann doc -> check docstring_prog (fc req ann doc) = Raise PDocstringC.
+Proof.
+  intros. rewrite C19_prog_is_canonical, check_canonical. eapply inconsistent_rejected; eauto.
+Qed.
+Print Assumptions C19_rejects_inconsistent.
+
+(* Full statement (false on the current code, see C19_one_edit_rejected_refuted):
+     forall scope req ann doc doc', sig_ok ann = true -> scope_ok scope ann = true ->
+       consistent scope ann doc -> one_edit scope doc doc' -> check docstring_prog (fc req ann doc') = Raise PDocstringC.
+   Proved for every edit except the removal of the type of a documented parameter (open finding C19-untyped-param).
+   Edits covered: drop / add / rename a documented parameter (also onto the name of another one), change one
+   documented type (any evaluable expression with a different denotation: a change at any nesting depth), drop / add /
+   alter the Returns entry, Returns without a type.  No guard about `X | Y` is needed here.                      *)
+Theorem C19_one_edit_rejected_partial : forall scope req ann doc doc',
+  sig_ok ann = true -> scope_ok scope ann = true ->
+  consistent scope ann doc -> one_edit scope doc doc' -> ~ is_untype_param doc doc' ->
+  check docstring_prog (fc req ann doc') = Raise PDocstringC.
+Proof.
+  intros. rewrite C19_prog_is_canonical, check_canonical. eapply one_edit_rejected; eauto.
+Qed.
+Print Assumptions C19_one_edit_rejected_partial.
+
+(* ... and therefore decoration fails, whenever the check applies to the edited docstring *)
+Theorem C19_one_edit_rejected_at_decoration : forall scope req ann doc doc',
+  sig_ok ann = true -> scope_ok scope ann = true ->
+  consistent scope ann doc -> one_edit scope doc doc' -> ~ is_untype_param doc doc' ->
+  applies req doc' = true ->
+  decorate docstring_prog (fc req ann doc') = Raise PDocstringC.
+Proof.
+  intros scope req ann doc doc' Hs Hsc Hc He Hn Ha. rewrite C19_trigger.
+  cbn [fc mkfc f_parser f_require f_doc andb]. rewrite Ha. eapply C19_one_edit_rejected_partial; eauto.
+Qed.
+Print Assumptions C19_one_edit_rejected_at_decoration.
+
+(* def f(a: int) with `a: ...` instead of `a (int): ...`: a single edit of a consistent docstring, TypeError *)
+Theorem C19_one_edit_rejected_refuted : exists scope req ann doc doc',
+  sig_ok ann = true /\ scope_ok scope ann = true /\ consistent scope ann doc /\ one_edit scope doc doc' /\
+  check docstring_prog (fc req ann doc') = Raise TypeErrorC.
+Proof.
+  exists ["int"], true, [("a", TCls "int")],
+         (mkdoc RawText ([] ++ ("a", Some (dt "int" (EName "int"))) :: []) None),
+         (mkdoc RawText ([] ++ ("a", None) :: []) None).
+  split; [reflexivity|]. split; [reflexivity|]. split; [|split; [apply E_untype_param|reflexivity]].
+  apply consistentb_iff; [apply nodupb_NoDup; reflexivity|reflexivity].
+Qed.
+Print Assumptions C19_one_edit_rejected_refuted.
+
+(* ---- pedantic_class_require_docstring: the methods are decorated in order ---------------------------------------------- *)
+Theorem C19_class_all_methods : forall l,
+  (decorate_all docstring_prog l = Ok tt <-> forall c, In c l -> decorate docstring_prog c = Ok tt) /\
+  (forall l1 c l2 e, l = l1 ++ c :: l2 -> (forall x, In x l1 -> decorate docstring_prog x = Ok tt) ->
+     decorate docstring_prog c = Raise e -> decorate_all docstring_prog l = Raise e).
+Proof.
+  intros l. split; [apply decorate_all_Ok|]. intros l1 c l2 e E H1 H2. subst l. now apply decorate_all_first.
+Qed.
+Print Assumptions C19_class_all_methods.
+
+(* ---- the specification ------------------------------------------------------------------------------------------------ *)
+(* the oracle evaluated by the harness is the specification *)
+Theorem C19_spec_executable : forall scope ann doc, sig_ok ann = true ->
+  (consistentb scope ann doc = true <-> consistent scope ann doc).
+Proof. intros scope ann doc H. apply consistentb_iff. apply (sf_nodup _ (sig_ok_facts _ H)). Qed.
+Print Assumptions C19_spec_executable.
+
+(* "a type equal to its annotation": == on typing objects is an equivalence relation *)
+Theorem C19_type_equality_is_equivalence :
+  (forall a, ty_eqb a a = true) /\ (forall a b, ty_eqb a b = ty_eqb b a) /\
+  (forall a b c, ty_eqb a b = true -> ty_eqb b c = true -> ty_eqb a c = true).
+Proof. split; [exact ty_eqb_refl|]. split; [exact ty_eqb_sym|exact ty_eqb_trans]. Qed.
+Print Assumptions C19_type_equality_is_equivalence.
+
+(* ---- non-vacuity ---------------------------------------------------------------------------------------------------------- *)
+(* def f(a: Optional[List[Foo]], *args: int, k: Dict[str, Foo] | None) -> Callable[[Foo], int]   with a faithful docstring
+   that respells Optional[...] as Union[..., None] *)
+Definition ex_ann : annotations :=
+  [("return", TGen (GTyping "Callable") [TCls "Foo"; TCls "int"]);
+   ("a", TUnion [TGen (GTyping "List") [TCls "Foo"]; TCls "NoneType"]);
+   ("args", TCls "int");
+   ("k", TUnion [TGen (GTyping "Dict") [TCls "str"; TCls "Foo"]; TCls "NoneType"])].
+Definition ex_scope : list string := ["Foo"; "NoneType"; "int"; "str"].
+Definition ex_a : dtype := dt "Union[List[Foo], None]" (ESub (EName "Union") (ETuple [ESub (EName "List") (EName "Foo"); ENone])).
+Definition ex_args : dtype := dt "int" (EName "int").
+Definition ex_k : dtype := dt "Optional[Dict[str, Foo]]" (ESub (EName "Optional") (ESub (EName "Dict") (ETuple [EName "str"; EName "Foo"]))).
+Definition ex_ret : dtype := dt "Callable[[Foo], int]" (ESub (EName "Callable") (ETuple [EList [EName "Foo"]; EName "int"])).
+Definition ex_doc : docT := mkdoc RawText [("k", Some ex_k); ("a", Some ex_a); ("args", Some ex_args)] (Some [ex_ret]).
+
+Example ex_guards : sig_ok ex_ann = true /\ scope_ok ex_scope ex_ann = true /\ doc_no_typing_dot ex_doc = true /\
+  ctx_covers [] ex_ann = true /\ doc_typed ex_doc = true /\ doc_evaluable ex_scope ex_doc = true.
+Proof. repeat split; reflexivity. Qed.
+
+Example ex_consistent : consistent ex_scope ex_ann ex_doc.
+Proof. apply consistentb_iff; [apply nodupb_NoDup; reflexivity|reflexivity]. Qed.
+
+Example ex_accepted : decorate docstring_prog (fc false ex_ann ex_doc) = Ok tt.
+Proof. reflexivity. Qed.
+
+(* one edit of every kind is possible on it *)
+Example ex_edit_rename : one_edit ex_scope ex_doc (mkdoc RawText ([("k", Some ex_k)] ++ ("b", Some ex_a) :: [("args", Some ex_args)]) (Some [ex_ret])).
+Proof. apply (E_rename_param ex_scope RawText [("k", Some ex_k)] "a" "b"). discriminate. Qed.
+
+(* a change two levels down: Optional[Dict[str, Foo]] -> Optional[Dict[str, int]] *)
+Definition ex_k' : dtype := dt "Optional[Dict[str, int]]" (plug (CSubS (EName "Optional") (CSubS (EName "Dict") (CTupleAt [EName "str"] CHole []))) (EName "int")).
+Example ex_edit_deep : one_edit ex_scope ex_doc (mkdoc RawText ([] ++ ("k", Some ex_k') :: [("a", Some ex_a); ("args", Some ex_args)]) (Some [ex_ret])).
+Proof.
+  apply (E_change_type ex_scope RawText [] "k" ex_k ex_k'); [reflexivity|].
+  intros [t [t' [E1 [E2 Q]]]]. vm_compute in E1, E2. inversion E1; inversion E2; subst. discriminate.
+Qed.
+
+Example ex_edit_deep_rejected :
+  decorate docstring_prog (fc true ex_ann (mkdoc RawText ([] ++ ("k", Some ex_k') :: [("a", Some ex_a); ("args", Some ex_args)]) (Some [ex_ret])))
+  = Raise PDocstringC.
+Proof. reflexivity. Qed.
+
+Example ex_edit_alter_returns : one_edit ex_scope ex_doc (mkdoc RawText [("k", Some ex_k); ("a", Some ex_a); ("args", Some ex_args)] (Some [ex_args])).
+Proof.
+  apply (E_alter_returns ex_scope RawText _ ex_ret ex_args); [reflexivity|].
+  intros [t [t' [E1 [E2 Q]]]]. vm_compute in E1, E2. inversion E1; inversion E2; subst. discriminate.
+Qed.
